@@ -32,7 +32,9 @@ func runC15(c *core.Ctx) core.Meta {
 		RuleBase: "R15.1", Pkg: robPkg, FloorSends: 4,
 		Effects: []Effect{
 			RetrieveEffect,
-			{Label: "list-insert", Consume: true, Match: func(n *core.Node) bool { return isListCall(n.Instr, "PushBack", "PushFront", "InsertBefore", "InsertAfter") }},
+			{Label: "list-insert", Consume: true, Match: func(n *core.Node) bool {
+				return isListCall(n.Instr, "PushBack", "PushFront", "InsertBefore", "InsertAfter")
+			}},
 			{Label: "list-remove", Consume: true, Match: func(n *core.Node) bool { return isListCall(n.Instr, "Remove") }},
 			{Label: "list-init", Consume: true, Match: func(n *core.Node) bool { return isListCall(n.Instr, "Init") }},
 			FieldWriteEffect("table-write", tableField),
@@ -192,7 +194,9 @@ func runC15(c *core.Ctx) core.Meta {
 	if len(capPred) == 0 {
 		c.Report(core.Finding{Rule: "R15.3", Kind: "anchor", Pkg: robPkg, Func: "-", Detail: "capacity-predicate", Msg: "no function returning a comparison of transactions.Len() with bufferSize found"})
 	}
-	n3, ung3 := p.GuardedUp(func(in ssa.Instruction) bool { return isListCall(in, "PushBack", "PushFront", "InsertBefore", "InsertAfter") }, CallFnCut(false, capPred))
+	n3, ung3 := p.GuardedUp(func(in ssa.Instruction) bool {
+		return isListCall(in, "PushBack", "PushFront", "InsertBefore", "InsertAfter")
+	}, CallFnCut(false, capPred))
 	st3.Instances += n3
 	for i := 0; i < n3-len(ung3); i++ {
 		st3.Ob(true)
